@@ -13,7 +13,7 @@ import tempfile
 
 from .. import apidriver, core, gen, gmodel, subject, tools
 
-FEATS = ["f1", "f2", "foo-bar"]
+FEATS = ["f1", "foo-bar", "bit_ops", "Up"]     # dash, underscore and upper case: only the env path mangles names
 
 
 def gen_pred(rng, depth=0):
@@ -150,7 +150,9 @@ def job(args):
             F = set(F)
             how = rng.choice(["cli", "cli", "api", "env"])
             st, data, msg = generate(bin_, work, ann, how, F)
-            dtext = cg.text(F)
+            # CARGO_FEATURE_FOO_BAR -> "foo-bar": through the environment only lower-case dashed names exist
+            F_eff = {f.upper().replace("-", "_").replace("_", "-").lower() for f in F} if how == "env" else F
+            dtext = cg.text(F_eff)
             if dtext not in ref_cache:
                 ref_cache[dtext] = generate(bin_, work, dtext, "cli", set())
             rst, rdata, rmsg = ref_cache[dtext]
